@@ -11,8 +11,8 @@ type Ref struct {
 	Task string
 	// VP: constant instance key passed to deduplicated targets ("=" / "=k1"); empty means
 	// the callee's VP is derived from the caller's ("<caller VP>><caller>.<site>").
-	VP     string
-	Vars   [][2]string
+	VP   string
+	Vars [][2]string
 	// ListVars are passed as YAML lists (value = space separated items)
 	ListVars [][2]string
 	Silent   bool
